@@ -87,9 +87,9 @@ class Doc:
     if rt == "F":
       return [(r[1], "S")]
     if rt == "O":
-      return [(split_o(x)[0], "SEO") for x in r[2].split(" ")]
+      return [(split_o(x)[0], "SEGO") for x in r[2].split(" ") if x]
     if rt == "U":
-      return [(x, "SEGOU") for x in r[2].split(" ")]
+      return [(x, "SEGOU") for x in r[2].split(" ") if x]
     return []
 
   def mentioned(self):
@@ -143,6 +143,11 @@ class Doc:
     return out
 
   # ---------------------------------------------------------------- legality
+  def degenerate(self):
+    """a group whose last item was dropped (left open by the property)"""
+    return any(r[0] in ("O", "U") and self.version == "gfa2" and not r[2]
+               for r in self.recs)
+
   def well_typed(self):
     for r in self.recs:
       for n, types in self.mentions(r):
@@ -230,6 +235,9 @@ class Doc:
     for x in self.recs:
       if x[0] == "U" and gap_names:
         items = [i for i in x[2].split(" ") if i not in gap_names]
+        x[2] = " ".join(items)
+      if x[0] == "O" and gap_names:
+        items = [i for i in x[2].split(" ") if split_o(i)[0] not in gap_names]
         x[2] = " ".join(items)
     return gone
 
